@@ -1,12 +1,20 @@
 PROPS["C19"] = dict(
     pkg="p_errors", hooks=[], level="exploration", design="DESIGN.md §4 C19",
     technique="exhaustive cross-product of class x other class x wrap-text list (depth 0..4) x embedding level x object x gRPC "
-              "code x message + rapid message texts and objects, relational oracle",
+              "code x message, systematic message sizes around powers of two up to 64 KiB, batches of chains built before any "
+              "is checked + rapid message texts, objects, sizes and batches; relational oracle",
     rule="chain case = (class with a gRPC code, list of 0..4 (thorough: exhaustive 0..5, rapid 0..6) fmt.Errorf(\"%s%w%s\") levels with verbatim pre/post texts, optional "
          "errors.EmbedObject at one level 0..depth, object); checked: Is(GRPCWrap(e), class), not Is(GRPCWrap(e), k) for each of "
          "the 11 other distinct class values (incl. ErrClosed, ErrCommunication), GRPCWrap(GRPCWrap(e)) == GRPCWrap(e) with the "
          "same code, ExtractObject true and JSON-equal object directly after EmbedObject, after all wraps, after GRPCWrap and "
-         "after the second GRPCWrap. code case = (one of the 17 gRPC codes, message): for a non-OK code exactly one distinct class "
+         "after the second GRPCWrap - all of it only after the chain, GRPCWrap(e) and GRPCWrap(GRPCWrap(e)) have been created. A "
+         "chain may carry a target length: err.Error() of the finished chain is padded with ASCII to exactly that many bytes, the "
+         "padding sitting in a wrap text inside or outside the embedding, in the object's string, in many array elements or in "
+         "many fields (systematic: 19 targets 100..65537 around 256/1024/4096/16384/65536 x 5 places x embedding levels; rapid: "
+         "power of two +-64 or log-uniform up to 70000 in 20% of the chains). batch case = 2..8 chains with distinct objects: "
+         "every chain is built (GRPCWrap per chain or after all are built) before the first result is looked at, then each is "
+         "checked like a single chain (systematic: sizes 2..8 x depth 0..2 x embedding inner/outer x GRPCWrap order; rapid: 20% "
+         "of the cases). code case = (one of the 17 gRPC codes, message): for a non-OK code exactly one distinct class "
          "k has Is(status.Error(c,msg), k) and FromGRPCError is non-nil (OK: status.Error is nil, nothing asserted). "
          "Exhaustive: 10 classes x every list over 8 text styles up to the depth in exhaustive_parts x (no embedding + every level x 3 objects), and 17 "
          "codes x 13 messages; rapid: texts from ASCII/unicode/JSON fragments/colons/%/ESC/\"json\"/\"\\x1bjso\" pieces and "
@@ -14,12 +22,15 @@ PROPS["C19"] = dict(
          "complete marker \\x1bjson in a wrap text, also when it would only arise across a concatenation boundary (then the "
          "level's texts are replaced by \"[\" \"]\", class text_would_complete_marker_replaced) - EmbedObject's precondition and "
          "ExtractObject's two-marker format; chains that contain more than one class (GRPCStatusCode's fallback iterates a map); "
-         "invalid UTF-8. non-trivial = chain with >= 1 wrap level or an embedded object, or a non-OK code; distinct = FNV hash of "
+         "invalid UTF-8. non-trivial = chain with >= 1 wrap level or an embedded object, or a batch with >= 2 embedded objects, or a non-OK code; distinct = FNV hash of "
          "the JSON form of the case",
     assumptions=["the classes that have a gRPC code are the ten named in the errorsToCode table at the pinned commit (fixed list, "
                  "not derived from the code under test)",
                  "'equal object' is decided on the JSON form of the extracted vs embedded object (nil and empty slices coincide)",
-                 "nothing is asserted about which code a class gets, only the relations of the C19 statement"],
+                 "nothing is asserted about which code a class gets, only the relations of the C19 statement; in particular the "
+                 "text of GRPCWrap(e) is not compared with e.Error() - a lost or altered text is reported only through "
+                 "ExtractObject (false or a different object)",
+                 "an error value and its embedded object must not depend on errors created after it (batches)"],
     units=[
         dict(name="exhaustive", run="^TestC19Exhaustive$", shards=(16, 16), timeout=(200, 1200)),
         dict(name="rapid", run="^TestC19Rapid$", checks=(5000, 100000), shards=(2, 16), timeout=(200, 1200)),
@@ -29,7 +40,8 @@ PROPS["C19"] = dict(
 LEVEL_TEXT["C19"] = (
     "Generated-input search with a relational oracle: the complete cross product of the ten coded classes, all other classes, wrap "
     "lists up to depth 4 over a text alphabet that includes the embed marker's neighbours, every embedding level and all 17 gRPC "
-    "codes is enumerated, and random texts and objects are added on top; each case is checked for class preservation, absence of "
+    "codes is enumerated, message lengths are driven to the bytes around every power of two up to 64 KiB, batches of up to 8 errors "
+    "are built before any of them is inspected, and random texts, objects, sizes and batches are added on top; each chain is checked for class preservation, absence of "
     "every other class, idempotence of GRPCWrap and object extraction. No counterexample among the cases counted in the evidence; "
     "not a proof for other wrapping forms (errors.Join, custom error types) or deeper chains."
 )
